@@ -6,6 +6,14 @@ var stdAssume = []string{
 }
 
 var props = map[string]*propCfg{
+	"C12": {
+		Engine: "execsim", Level: "fault_enumeration",
+		QuickRuns: 600, ThoroughRuns: 60000, QuickSeconds: 45, ThoroughSeconds: 1500, TimeoutS: 30,
+		Rule: "one run = one generated world with failure-site placeholders in every file (executed template, included, imported block, extended parent, exec target; any nesting of range/if/block/yield-content/include; outside try). For every reached site (capped per run) x every failure class (65 classes of self-detected failures, rotated when capped) the placeholder is replaced by a failing action on the same line, and for the function-reports-an-error class every dynamic call of the site (first 3) panics with an error. Judged: error returned not panic; message names the site's file and 1-based line; writer holds exactly the fault-free prefix up to the site (streaming: also at the fault instant). Non-trivial = at least one planted failure judged; distinct = hash of (sources, data).",
+		Assumptions: append([]string{"failing actions are single-line, so 'the action's line' is unambiguous", "Go runtime.Errors (integer division by zero) are not demanded by the statement and not planted"}, stdAssume...),
+		Real:        []string{"lexer", "parser (node positions)", "interpreter", "built-in functions", "InMemLoader", "fastprinter"},
+		Stub:        []string{"simulated Runtime/ranger pools (verif hooks)", "SimWriter", "probe functions mark/fail"},
+	},
 	"C13": {
 		Engine: "execsim", Level: "fault_enumeration",
 		QuickRuns: 3000, ThoroughRuns: 400000, QuickSeconds: 45, ThoroughSeconds: 1500, TimeoutS: 30,
